@@ -81,6 +81,39 @@ theorem put_total_inv (c : RawLru κ ν) (k : κ) (v : ν) (h : c.Inv) :
         · simp only [keys_cons, List.nodup_cons]; exact ⟨hk, nd⟩
         · simp only [List.length_cons]; omega
 
+/-- keys after a `put`: the new key plus (a subset of) the old ones -/
+theorem put_keys (c c' : RawLru κ ν) (k : κ) (v : ν) (r : PutResult κ ν) (e : Eff κ ν) (h : c.Inv)
+    (hp : c.put k v = .ok (c', r, e)) :
+    (c.cap ≠ 0 → k ∈ keys c'.items) ∧ (∀ x, x ∈ keys c'.items → x = k ∨ x ∈ keys c.items) := by
+  unfold RawLru.put at hp
+  cases hf : find k c.items with
+  | some old =>
+    simp [hf] at hp; obtain ⟨rfl, _, _⟩ := hp
+    refine ⟨fun _ => by simp [use], ?_⟩
+    intro x hx; simp only [use, keys_cons, List.mem_cons] at hx
+    rcases hx with hx | hx
+    · exact Or.inl hx
+    · exact Or.inr (keys_erase_subset k x _ hx)
+  | none =>
+    simp only [hf] at hp
+    by_cases h0 : c.cap = 0
+    · simp [h0] at hp; obtain ⟨rfl, _, _⟩ := hp
+      exact ⟨fun hc => absurd h0 hc, fun x hx => Or.inr hx⟩
+    · simp only [h0, if_false] at hp
+      split at hp
+      · cases hl : c.items.getLast? with
+        | none => simp [hl] at hp
+        | some e' =>
+          simp [hl] at hp; obtain ⟨rfl, _, _⟩ := hp
+          refine ⟨fun _ => by simp, ?_⟩
+          intro x hx; simp only [keys_cons, List.mem_cons] at hx
+          rcases hx with hx | hx
+          · exact Or.inl hx
+          · exact Or.inr ((last_facts _ _ hl h.nd).2.2.2.1 x hx)
+      · simp at hp; obtain ⟨rfl, _, _⟩ := hp
+        refine ⟨fun _ => by simp, ?_⟩
+        intro x hx; simp only [keys_cons, List.mem_cons] at hx; exact hx
+
 /-! ### lookups and removals -/
 
 theorem get_inv (c : RawLru κ ν) (k : κ) (h : c.Inv) : (c.get k).1.Inv ∧ (c.get k).1.cap = c.cap := by
